@@ -423,6 +423,10 @@ func runFsm(o fsmOpts) error {
 	os.RemoveAll(dbdir)
 	os.MkdirAll(dbdir, 0o755)
 	addFocusDirected(o.focus)
+	// the directed scenarios (the corpus of shapes that matter) always run in full, followed by random ones
+	if min := len(directedScenarios) + 24; o.n < min {
+		o.n = min
+	}
 	master := NewRng(o.seed)
 	seeds := make([]uint64, o.n)
 	for i := range seeds {
